@@ -29,7 +29,7 @@ Fixpoint not_dir_walk (fuel : nat) (st : kv) (dir : str) (e : err) : kv * err :=
     let '(st1, r) := sget st dir in
     match r with
     | inl rc => (st1, if is_dir (r_mode rc) then e else Bare ENOTDIR)
-    | inr e' => if cls_eqb (err_cls e') ENOENT then not_dir_walk f st1 (path_dir dir) e else (st1, e)
+    | inr e' => if cls_eqb (err_cls e') ENOENT then not_dir_walk f st1 (path_dir dir) e else (st1, e')
     end
   end.
 
@@ -281,6 +281,8 @@ Fixpoint kv_rename (fuel : nat) (st : kv) (o n : str) : kv * option err :=
     | inl fo =>
       if negb (valid_path n) then (st1, Some (LinkErr o n EINVAL))
       else
+        (* oldFile.Stat(): a regular file's handle Stat loads the data (error ignored, memoised) *)
+        let '(st1, fo) := if is_regular (f_mode fo) then (let '(s, f', _) := f_data st1 fo in (s, f')) else (st1, fo) in
         let '(st2, perr) :=
           if negb (str_eqb o n) && negb (str_eqb n dot) then
             let '(st2, rp) := get_file st1 (path_dir n) in
@@ -294,7 +296,9 @@ Fixpoint kv_rename (fuel : nat) (st : kv) (o n : str) : kv * option err :=
         | None =>
           let '(st3, rn) := get_file st2 n in
           let new_is_dir := match rn with inl fn => is_dir (f_mode fn) | inr _ => false end in
-          if new_is_dir then (st3, Some (LinkErr o n EEXIST))
+          let new_unknown := match rn with inr en => negb (cls_eqb (err_cls en) ENOENT) | inl _ => false end in
+          if new_unknown then (st3, Some (wrap_link o n (match rn with inr en => en | inl _ => Bare EOTHER end)))
+          else if new_is_dir then (st3, Some (LinkErr o n EEXIST))
           else if negb (is_dir (f_mode fo)) then
             if str_eqb o n then (st3, None)
             else
